@@ -255,3 +255,17 @@ CORPUS += [
     V("C07", "fjsp-release-against-next-release-time", FJ_, '(curr_ops_end <= td["time"][:, None])', '(curr_ops_end <= available_time[:, None])', "C07.d"),
     V("C07", "fjsp-makespan-sentinel-mask", FJ_, '-td["finish_times"].masked_fill(td["pad_mask"], -torch.inf).max(1).values', '-td["finish_times"].masked_fill(td["finish_times"] >= 9999, -torch.inf).max(1).values', "C07.f"),
 ]
+
+CORPUS += [
+    V("C02", "cvrp-cap-ge-starves-full-demand", R + "cvrp/env.py", 'td["demand"] + td["used_capacity"] > td["vehicle_capacity"]', 'td["demand"] + td["used_capacity"] >= td["vehicle_capacity"]', "C02.f"),
+    V("C04", "fjsp-release-against-unmasked-candidate", FJ_, '(curr_ops_end <= td["time"][:, None])', '(curr_ops_end <= available_time[:, None])', "C04.b"),
+    V("C04", "fjsp-clock-not-row-masked", FJ_, 'td["time"] = torch.where(step_complete, available_time, td["time"])', 'td["time"] = torch.where(available_time.isinf(), td["time"], available_time)', "C04.b"),
+    V("C06", "sdvrp-checker-reset-before-delivery", R + "sdvrp/env.py", '''            d = torch.min(demands[rng, a], td["vehicle_capacity"].squeeze(-1) - used_cap)
+            demands[rng, a] -= d
+            used_cap += d
+            used_cap[a == 0] = 0''', '''            used_cap[a == 0] = 0
+            d = torch.min(demands[rng, a], td["vehicle_capacity"].squeeze(-1) - used_cap)
+            demands[rng, a] -= d
+            used_cap += d''', "C06.e"),
+    V("C06", "cvrptw-checker-time-reset-dropped", R + "cvrptw/env.py", "            curr_time[curr_node == 0] = 0.0  # reset time for depot\n", "", "C06.e"),
+]
